@@ -776,6 +776,20 @@ static void makeNode(char *nodestr, char *devstr, char *plugstr)
     if (dev == NULL)
         _errormsg("unknown device");
 
+    /* refuse malformed host ranges before they are used */
+    {
+        hostlist_t hl;
+
+        if (!(hl = hostlist_create(nodestr)))
+            _errormsg("invalid node list");
+        hostlist_destroy(hl);
+        if (plugstr) {
+            if (!(hl = hostlist_create(plugstr)))
+                _errormsg("invalid plug list");
+            hostlist_destroy(hl);
+        }
+    }
+
     /* plugstr can be NULL - see comment in pluglist.h */
     switch (pluglist_map(dev->plugs, nodestr, plugstr)) {
         case EPL_DUPNODE:
